@@ -338,7 +338,7 @@ def params_digest_ok(p: ParsedInterest) -> bool:
 
 class ParsedLp:
     __slots__ = ('wire', 'els', 'fragment', 'pit_token', 'nack', 'nack_reason', 'frag_index',
-                 'frag_count', 'headers')
+                 'frag_count', 'headers', 'in_order')
 
 
 def parse_lp(wire) -> ParsedLp:
@@ -367,14 +367,26 @@ def parse_lp(wire) -> ParsedLp:
     fc = find(els, T_LP_FRAG_COUNT)
     p.frag_index = int.from_bytes(wire[fi[2]:fi[3]], 'big') if fi else None
     p.frag_count = int.from_bytes(wire[fc[2]:fc[3]], 'big') if fc else None
+    # NDNLPv2: header fields in increasing order of their type numbers, the Fragment last
+    hdr_types = [t for (t, _s, _v, _e) in els if t != T_LP_FRAGMENT]
+    p.in_order = all(a < b for a, b in zip(hdr_types, hdr_types[1:])) and (f is None or els[-1][0] == T_LP_FRAGMENT)
     return p
 
 
-def make_lp(fragment=None, headers=()):
-    """headers: iterable of (type, value bytes), emitted in the given order before the fragment."""
+def make_lp(fragment=None, headers=(), order=None):
+    """headers: iterable of (type, value bytes), emitted in the given order before the fragment.
+    order: None | 'frag_first' | 'reverse' | 'nack_last' - deliberately out-of-order envelopes"""
+    headers = list(headers)
+    tail = []
+    if order == 'reverse':
+        headers.reverse()
+    elif order == 'nack_last':
+        tail = [h for h in headers if h[0] == T_LP_NACK]
+        headers = [h for h in headers if h[0] != T_LP_NACK]
     body = b''.join(tlv(t, v) for t, v in headers)
-    if fragment is not None:
-        body += tlv(T_LP_FRAGMENT, fragment)
+    frag = tlv(T_LP_FRAGMENT, fragment) if fragment is not None else b''
+    body = frag + body if order == 'frag_first' else body + frag
+    body += b''.join(tlv(t, v) for t, v in tail)
     return tlv(T_LP_PACKET, body)
 
 
